@@ -338,6 +338,88 @@ def exact_text(t: T) -> T:
     return t
 
 
+class _NoValue(Exception):
+    pass
+
+
+def const_eval(t: T, env: Optional[Dict[T, object]] = None):
+    """python value of a term built from constants, the substituted leaves of
+    `env`, string / integer operations, comparisons and conditionals; raises
+    _NoValue where it cannot tell (used to evaluate small pure helpers —
+    name mangling, prefix tests — on concrete option names)"""
+    env = env or {}
+
+    def ev(x: T):
+        if x in env:
+            return env[x]
+        while x.op == "named":
+            x = x.args[1]
+        if tm.is_const(x):
+            return tm.const_val(x)
+        if x.op in ("tuple", "list"):
+            return tuple(ev(a) for a in x.args)
+        if x.op == "ite":
+            return ev(x.args[1]) if ev(x.args[0]) else ev(x.args[2])
+        if x.op == "not":
+            return not ev(x.args[0])
+        if x.op == "and":
+            return all(ev(a) for a in x.args)
+        if x.op == "or":
+            return any(ev(a) for a in x.args)
+        if x.op == "boolop":
+            vals = [ev(a) for a in x.args[1]]
+            r = vals[0]
+            for v in vals[1:]:
+                r = (r and v) if x.args[0] == "And" else (r or v)
+            return r
+        if x.op == "unop":
+            v = ev(x.args[1])
+            return {"Not": lambda: not v, "USub": lambda: -v,
+                    "UAdd": lambda: +v}[x.args[0]]()
+        if x.op == "cmp":
+            a, b = ev(x.args[1]), ev(x.args[2])
+            return {"Eq": lambda: a == b, "NotEq": lambda: a != b,
+                    "Lt": lambda: a < b, "LtE": lambda: a <= b,
+                    "Gt": lambda: a > b, "GtE": lambda: a >= b,
+                    "In": lambda: a in b, "NotIn": lambda: a not in b,
+                    "Is": lambda: a is b, "IsNot": lambda: a is not b,
+                    }[x.args[0]]()
+        if x.op == "binop" and x.args[0] in ("Add", "Sub", "Mult"):
+            a, b = ev(x.args[1]), ev(x.args[2])
+            return {"Add": lambda: a + b, "Sub": lambda: a - b,
+                    "Mult": lambda: a * b}[x.args[0]]()
+        if x.op == "sub":
+            b = ev(x.args[0])
+            i = x.args[1]
+            if i.op == "slice":
+                return b[slice(*[None if z is tm.NONE else ev(z)
+                                 for z in i.args])]
+            return b[ev(i)]
+        if x.op == "fstr":
+            return "".join(str(ev(a)) for a in x.args)
+        if x.op == "call":
+            n = tm.callee_name(x) or ""
+            args = [ev(a) for a in x.args[1]]
+            if n == "builtins.len":
+                return len(args[0])
+            if n in ("builtins.str", "builtins.int", "builtins.bool"):
+                return {"builtins.str": str, "builtins.int": int,
+                        "builtins.bool": bool}[n](*args)
+            if n in (".startswith", ".endswith", ".lower", ".upper",
+                     ".strip", ".lstrip", ".rstrip", ".replace",
+                     ".removeprefix", ".removesuffix", ".isdigit"):
+                recv = ev(tm.method_recv(x))
+                if isinstance(recv, str):
+                    return getattr(recv, n[1:])(*args)
+        raise _NoValue(tm.show(x)[:60])
+    try:
+        return ev(t)
+    except _NoValue:
+        raise
+    except Exception as e:        # type errors of the evaluated program
+        raise _NoValue(str(e))
+
+
 def split_comp_ite(t: T) -> T:
     """[f(x) for x in (A if c else B)]  ->  [f(x) for x in A] if c else
     [f(x) for x in B]: a comprehension over a conditionally replaced list is
